@@ -1290,7 +1290,11 @@ class EigenvalueCorrectedShampooPreconditionerList(
                     try:
                         computed_eigenvectors = matrix_eigenvectors(
                             A=factor_matrix,
-                            eigenvectors_estimate=factor_matrix_eigenvectors,
+                            # The stored eigenvectors have the block's dtype; the orthogonal iteration
+                            # multiplies them with the factor matrix, so both must share a dtype.
+                            eigenvectors_estimate=factor_matrix_eigenvectors.to(
+                                dtype=factor_matrix.dtype
+                            ),
                             eigenvector_computation_config=eigenvector_computation_config,
                             is_diagonal=bool(is_factor_matrix_diagonal),
                         )
